@@ -105,6 +105,12 @@ def update_param_state_dict_object(
 ) -> None:
     for k, v in current_param_state_dict.items():
         if k not in param_state_dict_to_load:
+            if isinstance(v, (dict, OptimizerModule)) and not flatten(
+                extract_state_dict_content({k: v})
+            ):
+                # flatten() drops entries that hold no tensor (e.g., the Kronecker factors of a block
+                # without any preconditioned dimension), so there is nothing to load for them.
+                continue
             if enable_missing_key_check:
                 raise KeyError(f"Key {k} not found in state dict to load.")
             else:
